@@ -96,7 +96,8 @@ def run(ctx):
                     or (c[0] == "bin" and c[1].startswith("Add"))]
             for c in adds:
                 l_, r_ = (c[2][0], c[2][1]) if c[0] == "call" else (c[2], c[3])
-                addend = r_ if show(l_) == "self.cache_size" else (l_ if show(r_) == "self.cache_size" else None)
+                # the counter may have been read into a local first (`let cached = self.cache_size; cached.checked_add(..)`)
+                addend = r_ if show(gsl.expand(l_)) == "self.cache_size" else (l_ if show(gsl.expand(r_)) == "self.cache_size" else None)
                 if addend is None or show(addend) in seen_add:
                     continue
                 seen_add.add(show(addend))
@@ -448,7 +449,8 @@ def block_limit_rule(ctx, rule):
         form, c0 = polarity.affine(v)
         if caller == "push_to_block2" and form == {"self.total_allocated_blocks_size": 1, BL: 1} and c0 == 0:
             rule.ok(key, "+= block_length", loc(a["sp"]))
-        elif v[0] == "bin" and v[1].replace("WithOverflow", "").startswith("Sub") and show(v[2]) == "self.total_allocated_blocks_size" and re.search(r"block\)?\.block_size$|block_size$", show(v[3])):
+        elif v[0] == "bin" and v[1].replace("WithOverflow", "").startswith("Sub") and show(v[2]) == "self.total_allocated_blocks_size" and \
+                re.search(r"block\)?\.block_size$|block_size$", show(Slicer(a["func"].body).expand(v[3]))):
             rule.ok(key, "-= block.block_size", loc(a["sp"]))
         else:
             rule.violation(key, "total_allocated_blocks_size = %s" % show(v, 80), loc(a["sp"]))
